@@ -32,6 +32,19 @@ def confirm(ses, v):
                 v['replay'] = sc; v['native'] = out
                 if msg is not None: v['what'] += ' [reproduced natively with message %r]' % (msg if len(msg) < 60 else msg[:20] + '... (%d chars)' % len(msg))
                 return True
+        if r.get('proto') == 'v1.public':
+            # RSA keys are fixtures: the same scenario with every pair of the pool in one process (state keyed by a property of the key - its length, a prefix - shows only then)
+            steps = []; alts = []
+            for rounds in (0, 1):
+                for idx in range(4):
+                    nm = 'p%d_%d' % (rounds, idx)
+                    steps += [{'op': 'keys', 'proto': 'v1.public', 'seed': '07' * 48, 'index': idx, 'out': nm},
+                              {'op': 'build_core', 'proto': 'v1.public', 'key': '$%s_sk' % nm, 'nonce': '09' * 32, 'message': 'pool message', 'footer': 'f', 'assertion': None, 'out': 'T' + nm},
+                              {'op': 'parse_core', 'proto': 'v1.public', 'token': '$T' + nm, 'key': '$%s_pk' % nm, 'footer': 'f', 'assertion': None, 'out': 'R' + nm}]
+                    alts.append([{'var': 'R' + nm, 'is': 'not_ok_eq', 'value': 'pool message'}])
+            sc = {'steps': steps, 'violated_if': alts}; out = run_native(sc); ses.native_runs = getattr(ses, 'native_runs', 0) + 1
+            if out.get('violated') is True:
+                v['replay'] = sc; v['native'] = out; v['what'] += ' [reproduced natively with the pool of four RSA key pairs used one after the other in one process]'; return True
         v['replay'], v['native'] = first
         return False if 'violated' in first[1] else None
     if 'steps' not in r:
@@ -82,7 +95,9 @@ def key_steps(proto, model, name='k'):
     """steps defining $<name>_sk / $<name>_pk with real key material (model values seed the real generators)"""
     if proto.endswith('local'):
         return [{'op': 'bytes', 'hex': _fix(model.get('key'), 32), 'out': name + '_sk'}, {'op': 'bytes', 'hex': _fix(model.get('key'), 32), 'out': name + '_pk'}]
-    return [{'op': 'keys', 'proto': proto, 'seed': _fix(model.get('seed') or model.get('key'), 48, '07'), 'out': name}]
+    st = {'op': 'keys', 'proto': proto, 'seed': _fix(model.get('seed') or model.get('key'), 48, '07'), 'out': name}
+    if proto == 'v1.public': st['index'] = {'k': 0, 'k2': 1, 'k3': 2, 'k4': 3}.get(name, 0)      # RSA pairs are fixtures: a second key is another fixture, never the same pair again
+    return [st]
 
 
 def build_step(proto, model, fkind, akind, out='T', key='$k_sk'):
@@ -347,7 +362,8 @@ def confirm_claims(ses, v):
     keys = set(reserved) | {'', 'a', 'data', 'Exp', 'exp ', ' exp', 'exp\x00', 'EXP', 'ISS', 'Sub', 'jtI', 'expx', 'xexp', 'is', 'iss.', 'nbf\n', 'äud'}
     if isinstance(mk, str): keys.add(mk)
     cases = [{'kind': 'custom', 'form': f, 'text': k} for k in sorted(keys) for f in ('key_only', 'tuple_str', 'tuple_string')]
-    good = ['2019-01-01T00:00:00Z', '2019-01-01T00:00:00+00:00', '2031-12-31T23:59:59.123Z', '2031-12-31T23:59:59-07:30']
+    good = ['2019-01-01T00:00:00Z', '2019-01-01T00:00:00+00:00', '2031-12-31T23:59:59.123Z', '2031-12-31T23:59:59-07:30',
+            '2031-07-04T12:34:56.123456789+05:30', '2031-07-04T12:34:56.12345-11:00', '2031-07-04T12:34:56.123456789Z', '9999-12-31T23:59:59+14:00', '0001-01-01T00:00:00Z']
     bad = ['hello', '', ' 2019-01-01T00:00:00Z', '\n2019-01-01T00:00:00Z', 'x2019-01-01T00:00:00Z', 'T00:00:00Z', 'exp']
     for k in ('exp', 'nbf', 'iat'):
         for f in ('str', 'string'):
@@ -385,12 +401,15 @@ def confirm_nonce(ses, v):
             ses.native_runs = getattr(ses, 'native_runs', 0) + 1
             res = (out.get('trace') or [{}])[0].get('results')
             if res is None: continue
+            seen_all = []
             for item in res:
                 toks = [o['value'] for o in item['outs'] if o.get('build') == 'ok']
                 nl = 24 if proto == 'v2.local' else 32; nonces = []
                 for t in toks:
                     seg = t.split('.')[2]; raw = base64.urlsafe_b64decode(seg + '=' * (-len(seg) % 4)); nonces.append(raw[:nl])
-                if len(set(toks)) != len(toks) or len(set(nonces)) != len(nonces):
+                # all builds of this run happen on one thread of one process: a nonce must not come back within a sequence nor across sequences
+                again = [n for n in nonces if n in seen_all]; seen_all += nonces
+                if len(set(toks)) != len(toks) or len(set(nonces)) != len(nonces) or again:
                     v['native'] = {'proto': proto, 'layer': layer, 'sequence': item['seq'], 'nonces': [n.hex() for n in nonces], 'violated': 'two builds of one builder carry the same nonce'}
                     v['what'] += ' [natively: %s %s builder, %d builds, repeated nonce %s]' % (proto, layer, len(toks), [n.hex()[:16] for n in nonces][:4]); v['replay'] = {'kind': 'c10', 'proto': proto}
                     return True
@@ -521,6 +540,44 @@ def confirm_history(ses, v):
                 v['native'] = {'proto': proto, 'sequence': 'parse(T,K) parse(T,K2) parse(T,K) parse(T,K2)', 'library': kinds}
                 v['what'] += ' [natively: %s one parser, same token under K, K\', K, K\' -> %s]' % (proto, kinds); v['replay'] = {'kind': 'c15_history', 'proto': proto}
                 return True
+    # the parser is re-configured between two parses: the expectation given last is the one in force; and the same token presented twice runs every validator twice
+    for proto in ('v4.local', 'v4.public'):
+        m = {'key': '07' * 32, 'nonce': '09' * 32}
+        steps = key_steps(proto, m)
+        for nm, pl in (('Ta', '{"sub":"a"}'), ('Tb', '{"sub":"b"}')):
+            steps.append({'op': 'build_core', 'proto': proto, 'key': '$k_sk', 'nonce': '09' * 32, 'message': pl, 'footer': None, 'assertion': None, 'out': nm})
+        want = {}
+        for layer in ('generic', 'prelude'):
+            steps.append({'op': 'parser_run', 'proto': proto, 'layer': layer, 'default_parser': False, 'key': '$k_pk', 'footer': None, 'assertion': None, 'checks': [{'key': 'sub', 'value': 'a'}],
+                          'mid_checks': {'2': [{'key': 'sub', 'value': 'b'}]}, 'validators': [], 'tokens': ['$Ta', '$Tb', '$Ta', '$Tb', '$Tb'], 'out': 'H_' + layer})
+            want['H_' + layer] = (['ok', 'err', 'err', 'ok', 'ok'], None)
+            steps.append({'op': 'parser_run', 'proto': proto, 'layer': layer, 'default_parser': False, 'key': '$k_pk', 'footer': None, 'assertion': None, 'checks': [],
+                          'validators': [{'key': 'sub', 'kind': 'accept', 'via': 'validate'}], 'tokens': ['$Ta', '$Ta', '$Tb', '$Ta'], 'out': 'V_' + layer})
+            want['V_' + layer] = (['ok', 'ok', 'ok', 'ok'], 1)
+        out = run_native({'steps': steps, 'violated_if': []}); ses.native_runs = getattr(ses, 'native_runs', 0) + 1
+        for t in [t for t in (out.get('trace') or []) if 'parser_run' in t]:
+            kinds = [r.get('parse') for r in t['results']]; exp_kinds, exp_calls = want.get(t['parser_run'], (None, None))
+            bad = None
+            if exp_kinds is not None and kinds != exp_kinds: bad = 'verdicts %s, expected %s' % (kinds, exp_kinds)
+            elif exp_calls is not None and any(len(r.get('validator_calls', [])) != exp_calls for r in t['results']): bad = 'validator calls per parse %s, expected %d each' % ([len(r.get('validator_calls', [])) for r in t['results']], exp_calls)
+            if bad:
+                v['native'] = {'proto': proto, 'run': t['parser_run'], 'violated': bad}
+                v['what'] += ' [natively: %s one parser, %s: %s]' % (proto, 'check sub=a; parse a, b; check sub=b; parse a, b, b' if t['parser_run'].startswith('H_') else 'validator on sub; parse a, a, b, a', bad)
+                v['replay'] = {'kind': 'c15_history', 'proto': proto}; return True
+    # time passes between two parses of one token by one default parser: a verdict remembered from the first parse must not outlive the token
+    import datetime as dt, time as _t
+    proto = 'v4.local'; m = {'key': '07' * 32, 'nonce': '09' * 32}
+    exp = (dt.datetime.now(dt.timezone.utc) + dt.timedelta(seconds=4)).isoformat(timespec='seconds').replace('+00:00', 'Z')
+    steps = key_steps(proto, m) + [{'op': 'build_core', 'proto': proto, 'key': '$k_sk', 'nonce': '09' * 32, 'message': json.dumps({'exp': exp}), 'footer': None, 'assertion': None, 'out': 'Te'}]
+    for layer in ('prelude',):
+        steps.append({'op': 'parser_run', 'proto': proto, 'layer': layer, 'default_parser': True, 'key': '$k_pk', 'footer': None, 'assertion': None, 'checks': [], 'validators': [],
+                      'tokens': ['$Te', '$Te'], 'sleep_ms_before': {'1': 6000}, 'out': 'E_' + layer})
+    out = run_native({'steps': steps, 'violated_if': []}); ses.native_runs = getattr(ses, 'native_runs', 0) + 1
+    for t in [t for t in (out.get('trace') or []) if 'parser_run' in t]:
+        kinds = [r.get('parse') for r in t['results']]
+        if kinds == ['ok', 'ok']:
+            v['native'] = {'proto': proto, 'violated': 'a token with exp %s is accepted, and accepted again 6 s later (after exp) by the same default parser' % exp}
+            v['what'] += ' [natively: %s]' % v['native']['violated']; v['replay'] = {'kind': 'c15_history', 'proto': proto}; return True
     return False
 
 
@@ -624,3 +681,11 @@ def confirm_core_api(ses, v):
 
 
 PY_CONFIRM.update({'core_api': confirm_core_api})
+
+
+def confirm_rsa_pool(ses, v):
+    v.setdefault('replay', {}); v['replay'] = {'kind': 'roundtrip', 'proto': 'v1.public', 'fkind': 'some', 'akind': 'none', 'model': {'key': '', 'nonce': '09' * 32, 'message': '6d', 'footer': '66', 'assertion': ''}}
+    return confirm(ses, v)
+
+
+PY_CONFIRM.update({'rsa_pool': confirm_rsa_pool})
